@@ -828,7 +828,12 @@ impl<const N: usize> Exec<N> {
                 if !(full && has_room) {
                     return Ok(Applied::Skipped);
                 }
-                (true, guarded(|| g.bind(a, b, l0)))
+                // either direction reaches a different push site in bind()
+                if (a + b) % 2 == 0 {
+                    (true, guarded(|| g.bind(a, b, l0)))
+                } else {
+                    (true, guarded(|| g.bind(b, a, l0)))
+                }
             }
             Oob::PutAbsent(v) => (false, guarded(|| g.put(v % cap, &Hex::from(1_i64)))),
             Oob::DataAbsent(v) => (false, guarded(|| drop(g.data(v % cap)))),
